@@ -16,7 +16,7 @@ import vlib  # noqa: E402
 
 ENGINE_OF = {
     "C01": "lbfuzz", "C02": "lbfuzz", "C03": "lbfuzz", "C16": "lbfuzz",
-    "C04": "connmon", "C05": "connmon", "C06": "connmon", "C07": "connmon", "C07X": "connmon", "C08": "connmon", "C10": "connmon", "C11": "connmon", "C12": "connmon", "C13": "connmon", "C14": "connmon", "C15": "connmon", "C17": "connmon", "C18": "connmon", "C19": "race", "C09": "connmon",
+    "C04": "connmon", "C05": "connmon", "C06": "connmon", "C07": "connmon", "C08": "connmon", "C10": "connmon", "C11": "connmon", "C12": "connmon", "C13": "connmon", "C14": "connmon", "C15": "connmon", "C17": "connmon", "C18": "connmon", "C19": "race", "C09": "connmon",
 }
 
 
